@@ -48,7 +48,8 @@ BwClause == IF ~C.finite THEN (IF Reached THEN "bandwidth-not-finite-although-th
             ELSE "ok"
 Close(a, b) == FAbs(a - b) <= 8 + FMax2(FAbs(a), FAbs(b)) \div 2000
 SumClause == IF FAbs(C.score - FSumR(C.ld, Len(C.ld))) > 4 * Len(C.ld) + FAbs(C.score) \div 4000 THEN "score-is-not-the-sum-of-score_samples" ELSE "ok"
-RouteBad == {r \in 1..Len(C.routes) : \E i \in 1..Len(C.ld) : ~Close(C.routes[r].ld[i], C.ld[i])}
+\* a route whose log-densities are not finite differs from the (finite) original whenever the proviso is met
+RouteBad == {r \in 1..Len(C.routes) : (~C.routes[r].finite /\ Reached) \/ (C.routes[r].finite /\ \E i \in 1..Len(C.ld) : ~Close(C.routes[r].ld[i], C.ld[i]))}
 First(s) == LET bad == {i \in 1..Len(s) : s[i] # "ok"} IN IF bad = {} THEN "ok" ELSE s[SetMin(bad)]
 \* symmetry laws presuppose a tie-free Voronoi assignment (a descriptor equidistant from two grid points is
 \* assigned by index order / rounding, which permutations and image shifts legitimately change)
@@ -60,7 +61,7 @@ Verdict == IF C.raised THEN <<"rejected", "valid-input-raised">>
                 IF c = "inconclusive" THEN <<"inconclusive", "localisation-proviso">>
                 ELSE IF c # "ok" THEN <<"rejected", c>>
                 ELSE IF ~TieFree THEN <<"ok">>
-                ELSE IF \E r \in 1..Len(C.routes) : ~C.routes[r].finite THEN <<"inconclusive", "localisation-proviso">>
+                ELSE IF ~Reached /\ \E r \in 1..Len(C.routes) : ~C.routes[r].finite THEN <<"inconclusive", "localisation-proviso">>
                 ELSE IF RouteBad # {} THEN <<"rejected", "log-density-changes-under-" \o C.routes[SetMin(RouteBad)].kind>>
                 ELSE <<"ok">>
 Emit == PrintT(ToJson([k |-> "V", id |-> C.id, v |-> Verdict,
